@@ -377,14 +377,28 @@ def splice_fn(fd, files, asm, canary=False, record=True):
             text = rewrite_guard(text, rw, item, asm)
             rewritten_lines += 1
             continue
-        if '\n' not in rw['old']:
+        if '\n' in rw['old']:
+            # multi-line rewrites: whole lines, compared modulo indentation
+            olines = [x.strip() for x in rw['old'].split('\n') if x.strip()]
+            tl = text.split('\n')
+            hits = [k for k in range(len(tl) - len(olines) + 1)
+                    if all(tl[k + q].strip() == olines[q] for q in range(len(olines)))]
+            cnt = len(hits)
+            if cnt != rw['count'] or cnt == 0:
+                raise LostAnchor("rewrite anchor in %s occurs %d times, expected %d: %r"
+                                 % (item, cnt, rw['count'], rw['old'][:80]))
+            for k in reversed(hits):
+                ind = tl[k][:len(tl[k]) - len(tl[k].lstrip())]
+                tl[k:k + len(olines)] = [ind + x.strip() for x in rw['new'].split('\n')]
+            text = '\n'.join(tl)
+        else:
             # single-line rewrites are matched modulo surrounding indentation
             rw = dict(rw, old=rw['old'].strip(), new=rw['new'].strip())
-        cnt = text.count(rw['old'])
-        if cnt != rw['count'] or cnt == 0:
-            raise LostAnchor("rewrite anchor in %s occurs %d times, expected %d: %r"
-                             % (item, cnt, rw['count'], rw['old'][:80]))
-        text = text.replace(rw['old'], rw['new'])
+            cnt = text.count(rw['old'])
+            if cnt != rw['count'] or cnt == 0:
+                raise LostAnchor("rewrite anchor in %s occurs %d times, expected %d: %r"
+                                 % (item, cnt, rw['count'], rw['old'][:80]))
+            text = text.replace(rw['old'], rw['new'])
         rewritten_lines += (rw['old'].count('\n') + 1) * cnt
         asm.log['rewrites'].append({'item': item, 'kind': rw['kind'], 'count': cnt,
                                     'old': rw['old'], 'new': rw['new'], 'why': rw['why']})
